@@ -18,6 +18,9 @@ def run_jobs(prop, tier, jobs, extra_props=("SCHED", "RACE", "UAF", "POSIX", "ME
             exes[key] = build.build_mc_exe(os.path.basename(j["src"])[:-2], [j["src"]], atomic=key[1], rwlock=key[2],
                                            extra_plain=j.get("extra_plain", ()), extra_wraps=j.get("extra_wraps", ()), ipc=bool(j.get("ipc")), ksim=bool(j.get("ksim")))
         j["exe"] = exes[key]
+        if "-D" not in [str(a) for a in j["args"]]:
+            # global deadline per job: exploration stops at the deadline, the job exits 0 and reports the bound as not completed
+            j["args"] = [j["args"][0], "-D", 60 if tier == "quick" else 600] + list(j["args"][1:])
         j["name"] = "%s[%s,%s] %s" % (os.path.basename(j["src"])[:-2], key[1], key[2], " ".join(map(str, j["args"])))
 
     def one(j):
